@@ -3420,8 +3420,6 @@ impl ConfigField for ConfigFileEncryptionProperties {
         let key = format!("{key_prefix}.store_aad_prefix");
         let desc = "If true, store the AAD prefix";
         self.store_aad_prefix.visit(v, key.as_str(), desc);
-
-        self.aad_prefix_as_hex.visit(v, key.as_str(), desc);
     }
 
     fn set(&mut self, key: &str, value: &str) -> Result<()> {
